@@ -383,6 +383,23 @@ func c15(c *Ctx) {
 			if t != nil && refersTo(info, t, pathRobust, "IRCToClient") {
 				r.Check(fi.Name() == "api.outputToRobustMessages", "C15.W1", fi.Name(), "builds an IRCToClient message", c.P.Pos(cl.Pos()), "the API's verbatim conversion of stored batches", "a message of type IRCToClient is built outside outputToRobustMessages: its text did not come from send()")
 			}
+			// … also when the type is copied from another message (a "merged" message that takes the type of the last line):
+			// outside the IRC server a message literal has a constant type, and its text is not put together from pieces
+			if pk := load.ShortPkg(fi.Pkg.PkgPath); t != nil && (pk == "api" || pk == "outputstream" || pk == "main") { // the packages between the output store and the client
+				if tv, ok := info.Types[t]; ok && tv.Value == nil && fi.Name() != "api.outputToRobustMessages" {
+					r.Fail("C15.W1", fi.Name(), "builds a message whose type is not a constant", c.P.Pos(cl.Pos()), "a message is built outside the IRC server with a type taken from elsewhere ("+astx.Str(t)+"): it can be an IRCToClient message whose text did not come from send()")
+				}
+			}
+			if d := litField(cl, "Data"); d != nil && load.ShortPkg(fi.Pkg.PkgPath) == "api" {
+				ast.Inspect(d, func(m ast.Node) bool {
+					if bl, ok := m.(*ast.BasicLit); ok && bl.Kind == token.STRING {
+						if sv, ok := astx.ConstString(info, bl); ok && strings.ContainsAny(sv, "\r\n\x00") {
+							r.Fail("C15.W3", fi.Name(), "message text built with "+bl.Value, c.P.Pos(bl.Pos()), "the API puts CR, LF or NUL into the text of a message: what a client receives as one message is more than one line")
+						}
+					}
+					return true
+				})
+			}
 			if fi.Pkg.PkgPath == pathIrcsrv && litField(cl, "Data") != nil && t == nil && fi != f.send {
 				// ExpireSessions builds a DeleteSession proposal with constant text
 				if tt := litField(cl, "Type"); tt == nil {
@@ -412,7 +429,14 @@ func c15(c *Ctx) {
 			nSinks++
 			pos := c.P.Pos(d.Pos())
 			construct := "Data of proposed " + astx.Str(t)
-			if isConstantText(info, d) {
+			// (the text may be kept in a local that is computed once, e.g. in front of a loop)
+			dd := astx.Expand(info, d)
+			if id, isID := dd.(*ast.Ident); isID {
+				if def := uniqueDef(info, fi.Node(), id); def != nil {
+					dd = def
+				}
+			}
+			if isConstantText(info, d) || isConstantText(info, dd) {
 				r.Ok("C15.W2", fi.Name(), construct, pos, "constant text / numeric formatting only")
 				continue
 			}
